@@ -59,13 +59,30 @@ quorum_run!(quorum_2_2);
 quorum_run!(quorum_1_3);
 quorum_run!(quorum_2_3);
 quorum_run!(quorum_3_3);
+quorum_run!(quorum_1_4);
+quorum_run!(quorum_2_4);
+quorum_run!(quorum_3_4);
+quorum_run!(quorum_4_4);
+quorum_run!(quorum_1_5);
+quorum_run!(quorum_2_5);
+quorum_run!(quorum_3_5);
+quorum_run!(quorum_4_5);
+quorum_run!(quorum_5_5);
 
 mod jr {
     use crate::drive::KV;
     crate::run2!(join_resp, KV, KV, (i64, i64, i64));
 }
 
-const MINMAX: [(usize, usize); 6] = [(1, 1), (1, 2), (2, 2), (1, 3), (2, 3), (3, 3)];
+const MINMAX: [(usize, usize); 15] = [
+    (1, 1), (1, 2), (2, 2), (1, 3), (2, 3), (3, 3),
+    (1, 4), (2, 4), (3, 4), (4, 4), (1, 5), (2, 5), (3, 5), (4, 5), (5, 5),
+];
+
+/// Sub-majority quorum: a key can still reach `min` Ok after more than half of `max` answered Err.
+fn sub_majority(min: usize, max: usize) -> bool {
+    max >= 2 * min + 1
+}
 
 fn quorum_runner(min: usize, max: usize) -> fn(&[Vec<R>]) -> Result<QObs, String> {
     match (min, max) {
@@ -75,6 +92,15 @@ fn quorum_runner(min: usize, max: usize) -> fn(&[Vec<R>]) -> Result<QObs, String
         (1, 3) => quorum_1_3,
         (2, 3) => quorum_2_3,
         (3, 3) => quorum_3_3,
+        (1, 4) => quorum_1_4,
+        (2, 4) => quorum_2_4,
+        (3, 4) => quorum_3_4,
+        (4, 4) => quorum_4_4,
+        (1, 5) => quorum_1_5,
+        (2, 5) => quorum_2_5,
+        (3, 5) => quorum_3_5,
+        (4, 5) => quorum_4_5,
+        (5, 5) => quorum_5_5,
         _ => {
             eprintln!("no flow for min={min} max={max}");
             std::process::exit(3)
@@ -109,7 +135,16 @@ impl Ctx<'_> {
         if !ok && !self.failed.iter().any(|k| k == kind) {
             self.failed.push(kind.to_string());
             let sig = if self.case.family == "quorum" {
-                format!("C39|{site}|{kind}|{}", if self.case.min == self.case.max { "min==max" } else { "min<max" })
+                format!(
+                    "C39|{site}|{kind}|{}",
+                    if self.case.min == self.case.max {
+                        "min==max"
+                    } else if sub_majority(self.case.min, self.case.max) {
+                        "max>=2min+1"
+                    } else {
+                        "min<max"
+                    }
+                )
             } else {
                 format!("C39|{site}|{kind}")
             };
@@ -150,6 +185,32 @@ fn check_quorum(rep: &mut Reporter, case: &Case) {
     if nonempty >= 2 {
         rep.nontrivial(hash_of(case));
         rep.count(&format!("nontrivial/quorum_{min}_{max}"));
+    }
+    // coverage of sub-majority histories: for some key, more than max/2 errors have arrived by the end of
+    // some tick and an Ok of that key arrives in a strictly later tick (still within max responses)
+    if sub_majority(min, max) {
+        let mut err_majority_then_ok = false;
+        let mut quorum_completed_after_err_majority = false;
+        for k in per_key_total.keys() {
+            let err_ticks: Vec<usize> = errs_in_order.iter().filter(|e| e.0.0 == *k).map(|e| e.1).collect();
+            if err_ticks.len() <= max / 2 {
+                continue;
+            }
+            let majority_tick = err_ticks[max / 2]; // tick in which the (max/2 + 1)-th error arrives
+            let my_oks = oks.get(k).cloned().unwrap_or_default();
+            if my_oks.iter().any(|o| o.1 > majority_tick) {
+                err_majority_then_ok = true;
+            }
+            if my_oks.len() >= min && my_oks[min - 1].1 > majority_tick {
+                quorum_completed_after_err_majority = true;
+            }
+        }
+        if err_majority_then_ok {
+            rep.count(&format!("sub_majority/errors_majority_then_later_ok/{min}_{max}"));
+        }
+        if quorum_completed_after_err_majority {
+            rep.count(&format!("sub_majority/quorum_completed_after_errors_majority/{min}_{max}"));
+        }
     }
     rep.sample(|| json!(case));
     let mut cx = Ctx { rep, case, failed: vec![] };
@@ -339,16 +400,20 @@ fn check_case(rep: &mut Reporter, case: &Case) {
 // ---------------------------------------------------------------------------------------------
 // workload
 
-/// All response sequences over keys 0..nkeys with at most `max` responses per key (each Ok or Err).
-fn sequences(max: usize, nkeys: usize) -> Vec<Vec<(i64, bool)>> {
-    fn go(cur: &mut Vec<(i64, bool)>, left: &mut Vec<usize>, out: &mut Vec<Vec<(i64, bool)>>) {
+/// All response sequences over keys 0..nkeys with at most `max` responses per key (each Ok or Err) and at
+/// most `cap` responses in total.
+fn sequences(max: usize, nkeys: usize, cap: usize) -> Vec<Vec<(i64, bool)>> {
+    fn go(cur: &mut Vec<(i64, bool)>, left: &mut Vec<usize>, cap: usize, out: &mut Vec<Vec<(i64, bool)>>) {
         out.push(cur.clone());
+        if cur.len() == cap {
+            return;
+        }
         for k in 0..left.len() {
             if left[k] > 0 {
                 for ok in [true, false] {
                     cur.push((k as i64, ok));
                     left[k] -= 1;
-                    go(cur, left, out);
+                    go(cur, left, cap, out);
                     left[k] += 1;
                     cur.pop();
                 }
@@ -356,7 +421,7 @@ fn sequences(max: usize, nkeys: usize) -> Vec<Vec<(i64, bool)>> {
         }
     }
     let mut out = vec![];
-    go(&mut vec![], &mut vec![max; nkeys], &mut out);
+    go(&mut vec![], &mut vec![max; nkeys], cap, &mut out);
     out
 }
 
@@ -372,16 +437,34 @@ fn layout<T: Clone>(items: &[T], comp: &[usize], gap: usize) -> Vec<Vec<T>> {
 }
 
 fn random_quorum_case(rng: &mut Rng, min: usize, max: usize) -> Vec<Vec<(i64, bool)>> {
-    let keys = 2 + rng.below(4) as i64;
+    let keys = 1 + rng.below(5) as i64;
+    // Ok probability per case: 1/3, 1/2, 2/3 or 5/6 (error-heavy and success-heavy histories)
+    let (num, den) = *rng.choose(&[(1u32, 3u32), (1, 2), (2, 3), (5, 6)]);
     let mut seq = vec![];
     for k in 0..keys {
-        for _ in 0..rng.below(max + 1) {
-            seq.push((k, rng.chance(2, 3) || min == max && rng.chance(1, 2)));
+        // mostly full response sets (max per key), sometimes fewer
+        let n = if rng.chance(1, 2) { max } else { rng.below(max + 1) };
+        for _ in 0..n {
+            seq.push((k, rng.chance(num, den) || min == max && rng.chance(1, 2)));
         }
     }
     rng.shuffle(&mut seq);
-    let t = 1 + rng.below(6);
-    hv_common::random_chunks(rng, &seq, t)
+    if rng.chance(1, 2) {
+        // a random composition, optionally with an empty tick between chunks
+        let mut comp: Vec<usize> = vec![];
+        for i in 0..seq.len() {
+            if i == 0 || rng.chance(1, 2) {
+                comp.push(1);
+            } else {
+                *comp.last_mut().unwrap() += 1;
+            }
+        }
+        let gap = rng.below(2);
+        layout(&seq, &comp, gap)
+    } else {
+        let t = 1 + rng.below(7);
+        hv_common::random_chunks(rng, &seq, t)
+    }
 }
 
 pub fn run(args: &Args) {
@@ -406,8 +489,18 @@ pub fn run(args: &Args) {
         if args.tier != Tier::Miri {
         for (min, max) in MINMAX {
             // thorough tier: three keys while the sequences stay short (max <= 2)
-            let nkeys = if args.tier == Tier::Thorough && max <= 2 { 3 } else { 2 };
-            for seq in sequences(max, nkeys) {
+            let thorough = args.tier == Tier::Thorough;
+            let nkeys = if thorough && max <= 2 { 3 } else { 2 };
+            // total-length cap: none up to max 3; for max 4 / 5 every one-key sequence (length <= max) is
+            // inside the cap, two-key sequences up to the cap
+            let cap = match (max, thorough) {
+                (0..=3, _) => 6,
+                (4, false) => 6,
+                (4, true) => 7,
+                (_, false) => 5,
+                (_, true) => 6,
+            };
+            for seq in sequences(max, nkeys, cap) {
                 for comp in hv_common::compositions(seq.len()) {
                     for gap in 0..2 {
                         if gap == 1 && comp.len() < 2 {
@@ -419,9 +512,9 @@ pub fn run(args: &Args) {
             }
         }
     }
-    // (B) random sequences over 2-5 keys, random partitions into 1-6 ticks
+    // (B) random sequences over 1-5 keys (error-heavy to success-heavy), random compositions / partitions
     for (min, max) in MINMAX {
-        for _ in 0..args.budget(10_000, 300_000, 2) {
+        for _ in 0..args.budget(10_000, 150_000, 2) {
             let ticks = random_quorum_case(&mut rng, min, max);
             check_case(&mut rep, &q(min, max, ticks));
         }
@@ -492,17 +585,27 @@ pub fn run(args: &Args) {
             let n = rep.counter(&format!("nontrivial/quorum_{min}_{max}"));
             rep.require(n >= 200, &format!("quorum_{min}_{max} saw only {n} non-trivial partitions"));
         }
+        for (min, max) in MINMAX {
+            if sub_majority(min, max) {
+                let a = rep.counter(&format!("sub_majority/errors_majority_then_later_ok/{min}_{max}"));
+                rep.require(a >= 300, &format!("({min},{max}): only {a} cases with > max/2 errors in a tick strictly before a later Ok"));
+                let b = rep.counter(&format!("sub_majority/quorum_completed_after_errors_majority/{min}_{max}"));
+                rep.require(b >= 100, &format!("({min},{max}): only {b} cases whose quorum completes after > max/2 errors arrived"));
+            }
+        }
         rep.require(rep.counter("nontrivial/join_resp") >= 1000, "too few non-trivial join_responses cases");
         rep.require(rep.counter("keys_reaching_quorum") >= 5000, "too few keys reached quorum");
         rep.require(rep.counter("with_response/released_more_than_min") >= 100, "max > min surplus never observed");
         rep.require(rep.counter("join/metadata_from_earlier_tick") >= 500, "persisted metadata rarely exercised");
     }
     rep.finish(
-        "hydro_std collect_quorum + collect_quorum_with_response (one generated flow per (min,max), 1<=min<=max<=3) \
+        "hydro_std collect_quorum + collect_quorum_with_response (one generated flow per (min,max), 1<=min<=max<=5, \
+         including the sub-majority shapes max >= 2*min+1) \
          and join_responses, compiled by generate_embedded. (A) every response sequence over keys {0,1} (thorough: {0,1,2} when max <= 2) with <= max \
-         responses per key (Ok/Err each), under every \
-         composition into ticks, without and with an empty tick between chunks; (B) random sequences over 2-5 keys \
-         in random partitions; (C) join_responses: every placement of request / response over 3 keys x 3 ticks \
+         responses per key (Ok/Err each; for max 4 / 5 capped at 6 / 5 responses in total, thorough 7 / 6, which \
+         contains every one-key sequence), under every \
+         composition into ticks, without and with an empty tick between chunks; (B) random sequences over 1-5 keys, \
+         error-heavy to success-heavy, in random compositions / partitions with and without empty ticks; (C) join_responses: every placement of request / response over 3 keys x 3 ticks \
          with request tick <= response tick (the documented contract), both key orders, plus random cases with \
          up to 6 keys and 6 ticks. Judged from the documented intent: a key is reported exactly once iff it \
          gathered >= min Ok, never before that; with_response releases only arrived Ok payloads of such keys, \
